@@ -24,7 +24,7 @@ OPS = ["aggregate", "split", "modify", "count", "shorthand"]
 
 
 def gen_case(rng, tier, op=None):
-    spec = framegen.gen_frame(rng, tier, kinds=framegen.KEY_KINDS)
+    spec = framegen.gen_frame(rng, tier, kinds=framegen.KEY_KINDS + ["objint"] + framegen.UINT_KINDS)
     names = [c["name"] for c in spec["cols"]]
     k = rng.choice([1, 1, 2, 2, 3])
     by = rng.sample(names, min(k, len(names)))
